@@ -335,7 +335,11 @@ def main():
             print(hdr)
             return 1
         exe = os.path.join(HARNESS, "target", "debug", "pv-harness")
-        rc, o = sh([exe, "replay", area, path])
+        if area == "sm":
+            # the failing accessor query is in the header; re-running means regenerating the program: ./check C19 quick
+            rc, o = 1, hdr
+        else:
+            rc, o = sh([exe, "replay", area, path])
         print("== implementation (/repo) ==")
         print(o)
         with open(path, "rb") as fh:
